@@ -52,12 +52,13 @@ def _(self, mut):
 @contract("aldy.coverage.Coverage.single_copy")
 def _(self, m, cn_solution):
     types(m="Union[Mutation, int]", cn_solution="CNSolution")
-    pos = m.pos if hasattr(m, "pos") else m
-    requires(cn_solution.position_cn(pos) >= 0)
-    d = depth_at(self, m) if hasattr(m, "pos") else depth(self, m)
-    ensures(implies(cn_solution.position_cn(pos) == 0, result == 0))
-    ensures(implies(cn_solution.position_cn(pos) > 0,
-                    result * cn_solution.position_cn(pos) == (d if d >= 1 else 1)))
+    returns("float")
+    requires(cn_wf(cn_solution))
+    # depth of a single gene copy: total depth (at least 1) / copy number; 0 where the structure has no copy
+    if hasattr(m, "pos"):
+        ensures(result == single_depth(self, cn_solution, m.pos, depth_at(self, m)))
+    else:
+        ensures(result == single_depth(self, cn_solution, m, depth(self, m)))
     modifies()
 
 
